@@ -45,3 +45,17 @@ def akai_zone_arrays_shift(what, case, detail):
     shows another slot's values."""
     return what == "per-zone key tracking / aux output / sample start values are those of the zone's own slot" \
         and isinstance(case, dict) and case.get("zone_gap") is True
+
+
+def akai_entry_endflag(what, case, detail):
+    """D14: the damaged entry's bytes 8-9 are the end-of-table mark 47 D7."""
+    return isinstance(case, dict) and case.get("endflag_in_name") is True and what in (
+        "every other item of the directory is still listed under its original name",
+        "every other item's audio is still exported unchanged")
+
+
+def akai_entry_namesake(what, case, detail):
+    """D15: the damaged name now equals / L-R-pairs with a sibling's name."""
+    return isinstance(case, dict) and case.get("namesake") is True and what in (
+        "every other item of the directory is still listed under its original name",
+        "every other item's audio is still exported unchanged")
